@@ -260,6 +260,16 @@ pub fn c08(rep: &mut Report, cfg: &Cfg) {
         lock.finish();
         drain_strays(rep, check, &mut lock, &judge);
     }
+    // ---- address chains (history): access, update PART of the address register by an instruction
+    // (byte / word view, ADDS, INC), access again with the same mode, register and displacement.
+    // Every step is judged in lock step from the real machine's state, so an effective address
+    // derived from stale state shows at the second access.
+    let chains = cfg.share(cfg.n(4_000, 150_000));
+    for _ in 0..chains {
+        let seed = rng.next();
+        chain_session(rep, seed, false);
+    }
+    rep.notes.push("C08 histories: chains MOV.L #base,ERn; access; partial update of ERn through RnL/RnH/Rn/En views or ADDS/INC; access again with the same mode/register/displacement (also loads whose destination is part of the address register), judged step by step.".into());
     rep.notes.push("C08: every form with a memory operand (MOV all modes, bit operations, STC, JMP/JSR @ERn/@@aa:8, BSR/JSR/RTS/RTE/TRAPA stack accesses); base registers with every upper byte, displacement pools that make the 32-bit sum wrap at 2^24, 2^32 and below zero; address-tagged memory in two independent passes so the byte read is identified by the value loaded; unmapped architectural EAs must fail. Cells: (form, wrap kind, EA region, ok/must-fail), (form, upper byte zero/non-zero).".into());
 }
 
@@ -358,4 +368,125 @@ pub fn c20(rep: &mut Report, cfg: &Cfg) {
     lock.finish();
     drain_strays(rep, check, &mut lock, &judge);
     rep.notes.push("C20: every implemented form x code in RAM/DRAM x operand/stack/vector in RAM, DRAM, vector area x 8 bus-controller settings (4 hand-made with pairwise distinct costs + 4 seeded random); compares the state count returned by the step with cycle-table x cost-function. Cells: (form, code area, data area, stack area, setting), (form, total).".into());
+}
+
+/// one address chain in session mode (see c08)
+pub fn chain_session(rep: &mut Report, seed: u64, verbose: bool) -> bool {
+    use crate::mon::{Action, Sess};
+    let mut rng = Rng::new(seed);
+    let mut sess = Sess::new(Some((seed & 1) as u32));
+    sess.full_every = 64;
+    let judge = c08_judge();
+    let replay = format!("check=C08 kind=chain seed={}", seed);
+    let n = rng.below(7) as u16; // address register ER0-ER6
+    let m = ((n + 1 + rng.below(6) as u16) % 7) as u16; // data register, different
+    let in_dram = rng.chance(1, 2);
+    let window = if in_dram { 0x480000u32 + ((rng.below(0x100) as u32) << 8) } else { 0xffd000 + ((rng.below(8) as u32) << 8) };
+    let mode = rng.below(5);
+    let sz = rng.below(3); // 0 B 1 W 2 L
+    let disp: u32 = match mode {
+        1 => *rng.pick(&[0u32, 2, 0x10, 0x7e, 0xfff0, 0xff80, 0x100]),
+        2 => *rng.pick(&[0u32, 4, 0x20, 0x1000, 0xfffff0, 0xffff00, 0x7ffe]),
+        _ => 0,
+    };
+    let sd = if mode == 1 { crate::refmodel::exec::sext(disp, 16) } else if mode == 2 { crate::refmodel::exec::sext(disp, 24) } else { 0 };
+    let base = (window + 0x40).wrapping_sub(sd) & 0xffffff | if rng.chance(1, 2) { (rng.u8() as u32) << 24 } else { 0 };
+    let code = 0xffc000u32;
+    let mut pc = code;
+    let mut r = sess.regs();
+    r.er = gen::regs(&mut rng);
+    r.er[7] = 0xffe800;
+    r.pc = code;
+    sess.set_regs(&r);
+    let access = |rng: &mut Rng, store: bool, self_dst: bool| -> Vec<u16> {
+        let d = if self_dst && !store && sz == 0 { 8 + n } else { m }; // x = table[x]
+        let (op_b, op_w) = (0u16, 0u16);
+        let _ = (op_b, op_w, rng);
+        match (mode, sz) {
+            (0, 0) => vec![0x6800 | if store { 0x80 } else { 0 } | (n << 4) | d],
+            (0, 1) => vec![0x6900 | if store { 0x80 } else { 0 } | (n << 4) | d],
+            (0, _) => vec![0x0100, 0x6900 | if store { 0x80 } else { 0 } | (n << 4) | d],
+            (1, 0) => vec![0x6e00 | if store { 0x80 } else { 0 } | (n << 4) | d, disp as u16],
+            (1, 1) => vec![0x6f00 | if store { 0x80 } else { 0 } | (n << 4) | d, disp as u16],
+            (1, _) => vec![0x0100, 0x6f00 | if store { 0x80 } else { 0 } | (n << 4) | d, disp as u16],
+            (2, 0) => vec![0x7800 | (n << 4), if store { 0x6aa0 } else { 0x6a20 } | d, (disp >> 16) as u16, disp as u16],
+            (2, 1) => vec![0x7800 | (n << 4), if store { 0x6ba0 } else { 0x6b20 } | d, (disp >> 16) as u16, disp as u16],
+            (2, _) => vec![0x0100, 0x7800 | (n << 4) | if store { 0x80 } else { 0 }, if store { 0x6ba0 } else { 0x6b20 } | d, (disp >> 16) as u16, disp as u16],
+            // @ERn+ loads / @-ERn stores
+            (3, 0) => vec![0x6c00 | (n << 4) | d],
+            (3, 1) => vec![0x6d00 | (n << 4) | d],
+            (3, _) => vec![0x0100, 0x6d00 | (n << 4) | d],
+            (_, 0) => vec![0x6c80 | (n << 4) | d],
+            (_, 1) => vec![0x6d80 | (n << 4) | d],
+            (_, _) => vec![0x0100, 0x6d80 | (n << 4) | d],
+        }
+    };
+    let mut prog: Vec<Vec<u16>> = vec![vec![0x7a00 | n, (base >> 16) as u16, base as u16]];
+    let rounds = 2 + rng.below(3);
+    for k in 0..rounds {
+        let store = match mode {
+            3 => false,
+            4 => true,
+            _ => rng.chance(1, 2),
+        };
+        let selfdst = k > 0 && rng.chance(1, 3);
+        prog.push(access(&mut rng, store, selfdst));
+        // partial update of ERn that keeps the effective address inside the window (even for W/L)
+        let step = (2 * (1 + rng.below(12))) as u16;
+        let upd: Vec<u16> = match rng.below(7) {
+            0 => vec![0xf000 | ((8 + n) << 8) | (0x40 + step)],          // MOV.B #imm,RnL
+            1 => vec![0x8000 | ((8 + n) << 8) | step],                    // ADD.B #imm,RnL
+            2 => vec![0x0b50 | n, 0x0b50 | n],                            // INC.W #1,Rn twice
+            3 => vec![0x0bd0 | n],                                        // INC.W #2,Rn
+            4 => vec![0x7910 | n, step],                                  // ADD.W #imm,Rn
+            5 => vec![0x0b80 | n],                                        // ADDS #2,ERn (32-bit update)
+            _ => vec![0x0c00 | ((8 + m) << 4) | (8 + n)],                 // MOV.B RmL,RnL (value from the data register)
+        };
+        // split two-instruction updates
+        if upd.len() == 2 && upd[0] == upd[1] {
+            prog.push(vec![upd[0]]);
+            prog.push(vec![upd[1]]);
+        } else {
+            prog.push(upd);
+        }
+    }
+    prog.push(access(&mut rng, mode == 4, false));
+    let mut bad = false;
+    for words in &prog {
+        let mut bytes = vec![];
+        for w in words {
+            bytes.push((w >> 8) as u8);
+            bytes.push(*w as u8);
+        }
+        sess.load(pc, &bytes);
+        let before = sess.regs();
+        let obs = sess.act(Action::Step);
+        let c = Case { pc, code: bytes.clone(), er: before.er, ccr: before.ccr, patches: vec![], pending: vec![] };
+        let nf = rep.findings.len();
+        // only the memory accesses are C08's business
+        if gen::mem_operand(&obs.step.insn).is_some() {
+            super::flow::record_session(rep, "C08", &c, &obs, &judge, &replay);
+            let okk = matches!(obs.step.outcome, Outcome::Ok(_)) as u64;
+            rep.cell("chain-mode-size-ok", &[mode, sz, okk, in_dram as u64]);
+        } else {
+            rep.count("chain_update_steps_not_judged", 1);
+        }
+        if rep.findings.len() > nf {
+            bad = true;
+        }
+        if verbose {
+            println!("  pc={:06x} {:04x?} {} -> {:?} ea={:06x?} diffs={}", pc, words, obs.step.insn.form(), obs.real, obs.step.ea, obs.diffs.len());
+        }
+        if !matches!(obs.real, crate::mon::RealOutcome::Ok(_)) {
+            break;
+        }
+        pc += bytes.len() as u32;
+    }
+    sess.full_compare();
+    for (at, addr, real, model) in sess.strays.drain(..) {
+        bad = true;
+        rep.finding("chain|mem.stray", || format!("memory differs from the mirror at {:06x}: {:02x} vs {:02x} (action {})", addr, real, model, at), || replay.clone());
+    }
+    rep.sample(|| format!("address chain seed={} mode={} size={} ER{} base={:08x} disp={:x}: {} steps", seed, mode, sz, n, base, disp, prog.len()));
+    bad
 }
